@@ -83,12 +83,12 @@ let handle kind a =
                       { sbytes = []; sscript = parse_script a.(3); scalls = O } in
       Some (fmt_sink (fmt_results rs) s)
   | "cram" ->
-      (* cram seed script ops: ops = buffer lengths per explicit operation; content is opaque, the
-         observation carries the number of bytes accepted *)
+      (* cram seed script ops: ops = buffer lengths per explicit operation; content is opaque (and
+         not reproducible between runs, lengths included): results and inner call counts only *)
       let ops = List.map (fun o -> if o = "-" then [] else
                   List.map (fun t -> nat_of_int (int_of_string t)) (split_on ',' o)) (split_on ';' a.(2)) in
       let (rs, s) = cram_run ops { sbytes = []; sscript = parse_script a.(1); scalls = O } in
-      Some (Printf.sprintf "%s|calls=%d|len=%d" (fmt_results rs) (int_of_nat s.scalls) (List.length s.sbytes))
+      Some (Printf.sprintf "%s|calls=%d" (fmt_results rs) (int_of_nat s.scalls))
   | _ -> None
 
 let () = run_driver handle
